@@ -1,9 +1,10 @@
 /-
   Property C04 — arrival-time queries return the latest possible departure, if any exists.
 
-  Over the model, on the property's own domain (well-formed data, positive hop times, ONE minimum
-  waiting time for all departures - no line of the `transferable` mode -, non-negative walks, the
-  router lists each stop once, clock values in [0, 32 h)):
+  Over the model, on the property's own domain - and, after the `fix:` a7932ab of the reverse
+  break, WITHOUT its restriction to one minimum waiting time (lines of the `transferable` mode are
+  allowed): well-formed data, positive hop times, non-negative walks, the router lists each stop
+  once, clock values in [0, 32 h):
 
     * `C04_optimal`: when the answer is a route, it departs no earlier than ANY admissible journey
       (`AdmRev`: access entry, permitted boarding of an admitted trip at its stop, permitted
@@ -16,8 +17,9 @@
   reconstruction and clean-up loops are fuel-bounded in the model; their termination within the
   fuel is observed by the correspondence runs, not proved).
 
-  Outside the domain the statement is false: with a `transferable` line (minimum waiting 0) the
-  break after the first reached access stop can cut a later departure (DESIGN 7a O10).
+  History: the first proof attempt needed "one minimum waiting time" exactly at the break after the
+  first reached access stop; running the real code at the excluded point (a `transferable` line)
+  gave a wrong answer (DESIGN 0.3, fix a7932ab). With the repaired break the hypothesis is gone.
 -/
 import TrVerif.Proofs.ReverseSingle
 import TrVerif.Props.C09Complete
@@ -92,7 +94,7 @@ theorem reverseJourney_some (cx : Ctx) (s : RState) (bd : Int) (node : Nat) :
 
 /-- **the single reverse pass is optimal and complete** (context level) -/
 theorem singleReverse_optimal {cx : Ctx} (w : RW cx cx.cs.rev) (hs : SortedRev cx.cs.rev) (hidx : cx.cs.revIdx = revIndex cx.cs.rev)
-    (huni : ∀ c ∈ cx.cs.rev, c.effWait cx.p.minWait = cx.p.minWait)
+    (huni : ∀ c ∈ cx.cs.rev, c.effWait cx.p.minWait ≤ cx.p.minWait)
     (hand : (cx.accessFoot.map (·.stop)).Nodup) (haccNonneg : ∀ a ∈ cx.accessFoot, 0 ≤ a.time)
     (hbound : ∀ c ∈ cx.cs.rev, c.dep < MAX_INT) (h0 : 0 ≤ cx.arrT)
     {a0 : NTD} {e0 x0 : Conn} (hJ : AdmRev cx cx.cs.rev a0 e0 x0)
@@ -109,20 +111,20 @@ theorem singleReverse_optimal {cx : Ctx} (w : RW cx cx.cs.rev) (hs : SortedRev c
     have hsfold : s = (cx.cs.rev.drop start).foldl (revStep cx (fun _ => true) true) (RState.init cx) := by
       rw [← hsdef]; rfl
     -- the cut line, from the final state
-    obtain ⟨θ, hθdef⟩ : ∃ θ : Int, θ = if s.reached = true ∧ cx.maxAccess ≥ 0 ∧ cx.arrT - cx.p.maxTotal ≤ s.tentAccDep - cx.maxAccess
-        then s.tentAccDep - cx.maxAccess else cx.arrT - cx.p.maxTotal := ⟨_, rfl⟩
+    obtain ⟨θ, hθdef⟩ : ∃ θ : Int, θ = if s.reached = true ∧ cx.maxAccess ≥ 0 ∧ cx.arrT - cx.p.maxTotal ≤ s.tentAccDep - cx.maxAccess - cx.p.minWait
+        then s.tentAccDep - cx.maxAccess - cx.p.minWait else cx.arrT - cx.p.maxTotal := ⟨_, rfl⟩
     have hθ1 : cx.arrT - cx.p.maxTotal ≤ θ := by
       rw [hθdef]
-      by_cases hc : s.reached = true ∧ cx.maxAccess ≥ 0 ∧ cx.arrT - cx.p.maxTotal ≤ s.tentAccDep - cx.maxAccess
+      by_cases hc : s.reached = true ∧ cx.maxAccess ≥ 0 ∧ cx.arrT - cx.p.maxTotal ≤ s.tentAccDep - cx.maxAccess - cx.p.minWait
       · rw [if_pos hc]; exact hc.2.2
       · rw [if_neg hc]; exact Int.le_refl _
-    have hfin : s.reached = true → cx.maxAccess ≥ 0 → s.tentAccDep - cx.maxAccess ≤ θ := by
+    have hfin : s.reached = true → cx.maxAccess ≥ 0 → s.tentAccDep - cx.maxAccess - cx.p.minWait ≤ θ := by
       intro hr hm
       rw [hθdef]
-      by_cases hc : s.reached = true ∧ cx.maxAccess ≥ 0 ∧ cx.arrT - cx.p.maxTotal ≤ s.tentAccDep - cx.maxAccess
+      by_cases hc : s.reached = true ∧ cx.maxAccess ≥ 0 ∧ cx.arrT - cx.p.maxTotal ≤ s.tentAccDep - cx.maxAccess - cx.p.minWait
       · rw [if_pos hc]; exact Int.le_refl _
       · rw [if_neg hc]
-        have : ¬ (cx.arrT - cx.p.maxTotal ≤ s.tentAccDep - cx.maxAccess) := fun hh => hc ⟨hr, hm, hh⟩
+        have : ¬ (cx.arrT - cx.p.maxTotal ≤ s.tentAccDep - cx.maxAccess - cx.p.minWait) := fun hh => hc ⟨hr, hm, hh⟩
         omega
     have hsubd : ∀ a ∈ cx.cs.rev.drop start, a ∈ cx.cs.rev := fun a ha => List.mem_of_mem_drop ha
     have hsorted : SortedRev ([] ++ cx.cs.rev.drop start) := by
@@ -159,8 +161,8 @@ theorem singleReverse_optimal {cx : Ctx} (w : RW cx cx.cs.rev) (hs : SortedRev c
       · obtain ⟨hacc, hcnt⟩ := hC.acc e0 heP x0 hxP ⟨hcu, hdis, t, hrP, hrt⟩ hJ.trip hJ.seq hJ.board hcut
         exact ⟨a0, hJ.acc, _, by rw [hJ.stop]; exact hacc, Int.le_refl _, hcnt⟩
       · -- cut by the break after the first reached access stop: that stop's boarding is better
-        have hθ : s.reached = true ∧ cx.maxAccess ≥ 0 ∧ θ = s.tentAccDep - cx.maxAccess := by
-          by_cases hc : s.reached = true ∧ cx.maxAccess ≥ 0 ∧ cx.arrT - cx.p.maxTotal ≤ s.tentAccDep - cx.maxAccess
+        have hθ : s.reached = true ∧ cx.maxAccess ≥ 0 ∧ θ = s.tentAccDep - cx.maxAccess - cx.p.minWait := by
+          by_cases hc : s.reached = true ∧ cx.maxAccess ≥ 0 ∧ cx.arrT - cx.p.maxTotal ≤ s.tentAccDep - cx.maxAccess - cx.p.minWait
           · exact ⟨hc.1, hc.2.1, by rw [hθdef, if_pos hc]⟩
           · have : θ = cx.arrT - cx.p.maxTotal := by rw [hθdef, if_neg hc]
             omega
@@ -206,7 +208,7 @@ theorem RW_dataset' {ds : Dataset} (hwf : WFData ds) (p : Params) (hmw : 0 ≤ p
 /-- **C04.** On the property's domain: a returned route departs no earlier than any admissible
     journey, and no admissible journey is answered with no_routing_found. -/
 theorem C04_optimal (ds : Dataset) (hwf : WFData ds) (p : Params) (hp : p.forward = false) (hmw : 0 ≤ p.minWait)
-    (hmt : 0 ≤ p.maxTransfer) (hpos : PosHops ds) (huni : UniformWait ds) (hb : TimesBounded ds)
+    (hmt : 0 ≤ p.maxTransfer) (hpos : PosHops ds) (hb : TimesBounded ds)
     (hegr : ∀ g ∈ ds.egress, 0 ≤ g.time) (hend : (ds.egress.map (·.stop)).Nodup)
     (hacc : ∀ a ∈ ds.access, 0 ≤ a.time) (hand : (ds.access.map (·.stop)).Nodup) (h0 : 0 ≤ p.time)
     {a0 : NTD} {e0 x0 : Conn}
@@ -235,10 +237,13 @@ theorem C04_optimal (ds : Dataset) (hwf : WFData ds) (p : Params) (hp : p.forwar
     w (connSetOf_sorted ds _) rfl
     (by
       intro c hc
-      have := huni c (hsub c hc)
-      show c.effWait p.minWait = p.minWait
+      obtain ⟨tr, _, hc'⟩ := mem_conns (hsub c hc)
+      have hm := (tripConns_facts ds tr c hc').2.2.2.2
+      show c.effWait p.minWait ≤ p.minWait
       unfold Conn.effWait
-      rw [if_neg (by omega)])
+      rw [hm]
+      unfold Dataset.lineMinWait
+      split <;> split <;> omega)
     (routerLookup_nodup _ _ hand) (fun a ha => hacc a (List.mem_filter.mp ha).1)
     (fun c hc => hb c (hsub c hc)) h0 hJ hd0 hdT
   unfold calculateSingle calculateSingleCS calculateSingleWith
